@@ -3,6 +3,7 @@ C17 - Wire framing is exact and body reassembly is independent of chunking.
 """
 
 import gzip
+import itertools
 import json
 import os
 import subprocess
@@ -143,29 +144,53 @@ def client_framing(ctx, rng):
     ctx.sample({"part": "client", "url": "http://127.0.0.1:PORT/a.b/%C3%A9?q=%20x", "expected_target": "/a.b/%C3%A9?q=%20x"})
 
 
+SUPPORTED_SCHEMES = ("http", "https", "unix+http")
+SCHEME_PIECES = ["unix+", "unix", "+", "u", "x", "n", "i", "http", "https", "s", "ftp", "HTTP", "Unix+", "-", "."]
+
+
+def scheme_space():
+    """The table above plus every concatenation of up to three pieces (look-alikes of the supported spellings)."""
+    seen = {}
+    for scheme, ok in SCHEMES:
+        seen[scheme] = ok
+    for n in (1, 2, 3):
+        for combo in itertools.product(SCHEME_PIECES, repeat=n):
+            sch = "".join(combo)
+            if sch and sch[0].isalpha() and sch not in seen:
+                seen[sch] = sch.lower() in SUPPORTED_SCHEMES
+    return sorted(seen.items())
+
+
 def schemes(ctx):
     import jsonrpclib
-    for scheme, ok in SCHEMES:
+    import jsonrpclib.config
+    import jsonrpclib.jsonrpc as jr
+    cfg = jsonrpclib.config.Config()
+    space = scheme_space()
+    ctx.counters["schemes-enumerated"] = len(space)
+    for idx, (scheme, ok) in enumerate(space):
+        if not ctx.mine(idx):
+            continue
         url = scheme + ("://127.0.0.1:1/rpc" if "unix" not in scheme.lower() else ":///tmp/vf-nonexistent.sock")
-        ctx.case(("scheme", scheme))
-        ctx.count("judged:schemes")
-        ctx.cell("scheme", scheme)
-        try:
-            jsonrpclib.ServerProxy(url)
-            built = True
-        except Exception as ex:
-            built = False
-            err = ex
-        if built and not ok:
-            ctx.violate("unsupported-scheme-accepted", {"part": "scheme", "scheme": scheme}, {})
-        elif not built and ok:
-            ctx.violate("supported-scheme-rejected", {"part": "scheme", "scheme": scheme}, {"raised": err})
-        elif not built and not isinstance(err, (IOError, ValueError)):
-            ctx.violate("unsupported-scheme-raised-%s" % type(err).__name__, {"part": "scheme", "scheme": scheme}, {})
+        # the proxy builds its own transport, or the caller supplies one (of either kind)
+        for how, make in (("own", lambda: None), ("caller-tcp", lambda: jr.Transport(config=cfg)),
+                          ("caller-unix", lambda: jr.UnixTransport(config=cfg, path="/tmp/vf-nonexistent.sock"))):
+            ctx.case(("scheme", scheme, how))
+            ctx.count("judged:schemes")
+            ctx.cell("scheme", "supported" if ok else "unsupported", how)
+            try:
+                jsonrpclib.ServerProxy(url, transport=make())
+                built = True
+            except Exception as ex:
+                built = False
+                err = ex
+            case = {"part": "scheme", "scheme": scheme, "transport": how}
+            if built and not ok:
+                ctx.violate("unsupported-scheme-accepted" + ("" if how == "own" else ":caller-supplied-transport"),
+                            case, {})
+            elif not built and ok:
+                ctx.violate("supported-scheme-rejected", case, {"raised": err})
 
-
-# ---------------------------------------------------------------------------
-# (c) raw client -> real servers
 
 def digest(s):
     return [len(s), zlib.crc32(s.encode("utf-8"))]
@@ -450,8 +475,8 @@ def run(ctx):
     if not ctx.quick:
         for part in parts:
             part(ctx, rng)
+    schemes(ctx)     # (shards the scheme space itself)
     if ctx.mine(3):
-        schemes(ctx)
         cgi(ctx, rng)
     if ctx.shard in (4 % ctx.nshards, 5 % ctx.nshards, 6 % ctx.nshards) or not ctx.quick:
         straddle_bodies(ctx, rng, ctx.pick(1, 6) if ctx.shard != 4 % ctx.nshards else ctx.pick(2, 6))
